@@ -23,6 +23,9 @@ class Ctx:
         self.prop = prop
         self.tier = tier
         self.facts = F.load()
+        from . import absint
+        for en, vs in self.facts.enums.items():
+            absint.ENUM_NAMES[en] = [v[0] for v in vs]
         self.oracle = F.oracle()
         self.dispatch = dispatch.Dispatch(self.facts)
         self.roles = dispatch.Roles(self.facts)
